@@ -255,6 +255,9 @@ def pipeline(cfg: dict):
         closed = []
         made = []
 
+        class Damage(Exception):
+            """a failure of an arbitrary class (a decoder, a codec, a third-party adapter): nothing a handler could have listed"""
+
         class FakeReader:
             def __init__(self, src, selector=None):
                 self.si = int(src[3:])
@@ -263,7 +266,7 @@ def pipeline(cfg: dict):
                 if self.end == "open_ioerr":
                     raise IOError("cannot open")
                 if self.end == "open_exc":
-                    raise ValueError("unknown adapter")
+                    raise Damage("unknown adapter")
 
             def __iter__(self):
                 for ti, vals in per_src[self.si]:
@@ -273,7 +276,7 @@ def pipeline(cfg: dict):
                 if self.end == "ioerr":
                     raise IOError("truncated")
                 if self.end == "exc":
-                    raise ValueError("garbage")
+                    raise Damage("garbage")
 
             def close(self):
                 closed.append(self.si)
